@@ -346,3 +346,21 @@ Proof.
     rewrite (read_without_chunks (c_marker c) out code Hm Hf chunks EmptyString [] Hne Hall S).
     eexists. split; [reflexivity|right; reflexivity].
 Qed.
+
+(* ---------------------------------------------------------------- shell state *)
+Lemma run_state_wrapped st0 : s_alive st0 = true ->
+  forall cs, run_state Wrapped st0 st0 cs = fresh_results st0 cs.
+Proof.
+  intros Ha. induction cs as [|c cs IH]; [reflexivity|].
+  cbn [run_state fresh_results map]. rewrite Ha. f_equal. exact IH.
+Qed.
+
+Definition st_demo : sstate := {| s_cwd := "/work"; s_env := []; s_alive := true |}.
+Lemma run_state_bare_leaks :
+  run_state Bare st_demo st_demo [SCd "/tmp"; SPwd] = [("", 0%N); ("/tmp", 0%N)] /\
+  fresh_results st_demo [SCd "/tmp"; SPwd] = [("", 0%N); ("/work", 0%N)] /\
+  run_state Bare st_demo st_demo [SExport "FOO" "1"; SEcho "FOO"] = [("", 0%N); ("[1]", 0%N)] /\
+  fresh_results st_demo [SExport "FOO" "1"; SEcho "FOO"] = [("", 0%N); ("[]", 0%N)] /\
+  run_state Wrapped st_demo st_demo [SCd "/tmp"; SPwd; SExport "FOO" "1"; SEcho "FOO"; SExit 3; SPwd]
+    = [("", 0%N); ("/work", 0%N); ("", 0%N); ("[]", 0%N); ("", 3%N); ("/work", 0%N)].
+Proof. vm_compute. repeat split; reflexivity. Qed.
